@@ -395,3 +395,14 @@ pub fn install_crash_handler() {
         }
     }
 }
+
+/// `SSIterator::current` called the way callers that recycle their buffers do: with NON-EMPTY vectors
+/// (the method must overwrite them); cross-checked against the crate's `current_key_val` helper
+pub fn dirty_current<I: sstable::SSIterator + ?Sized>(it: &I) -> Option<(Vec<u8>, Vec<u8>)> {
+    let (mut k, mut v) = (vec![0xAAu8, 0xBB, 0xCC], vec![0xDDu8; 5]);
+    if it.current(&mut k, &mut v) {
+        Some((k, v))
+    } else {
+        None
+    }
+}
